@@ -748,6 +748,51 @@ func c12Breaker(r *zsim.Run) {
 			}
 		}
 	}
+	// every wrapper method that answers a question about an absent key (redis.Nil, or a zero value): one of them,
+	// drawn per run, is asked 40 times in a row - "not there" is an answer, never a failure
+	var probes []reflect.Method
+	wt := reflect.TypeOf(w)
+	for i := 0; i < wt.NumMethod(); i++ {
+		m := wt.Method(i)
+		if strings.HasSuffix(m.Name, "Ctx") || strings.HasPrefix(m.Name, "B") || m.Type.IsVariadic() || m.Type.NumOut() != 2 ||
+			m.Type.Out(1) != reflect.TypeOf((*error)(nil)).Elem() || m.Type.NumIn() < 2 || m.Type.NumIn() > 3 {
+			continue
+		}
+		ok := true
+		for j := 1; j < m.Type.NumIn(); j++ {
+			if m.Type.In(j).Kind() != reflect.String {
+				ok = false
+			}
+		}
+		if ok {
+			probes = append(probes, m)
+		}
+	}
+	if len(probes) > 0 {
+		zsim.Sleep(11 * time.Second) // the accepted outcomes above leave the breaker's window
+		m := probes[o.Intn(len(probes))]
+		args := []reflect.Value{reflect.ValueOf(w), reflect.ValueOf("absent-" + m.Name)}
+		if m.Type.NumIn() == 3 {
+			args = append(args, reflect.ValueOf("m"))
+		}
+		first := ""
+		for i := 0; i < 40; i++ {
+			n := len(a.Cmds)
+			out := m.Func.Call(args)
+			es := fmt.Sprint(out[1].Interface())
+			if i == 0 {
+				first = es
+				if out[1].Interface() != nil && out[1].Interface().(error) != Nil {
+					break // this method does not accept an absent key (wrong type of argument ...): not a probe
+				}
+				r.Probe("absent_key_probe_" + m.Name)
+			}
+			if es != first || len(a.Cmds) == n {
+				r.Failf("benign-outcome-rejected", "%s on an absent key answered %q the first time; call %d returned %q (reached the server: %v)", m.Name, first, i+1, es, len(a.Cmds) != n)
+				return
+			}
+		}
+	}
 	seen := len(a.Cmds)
 	if _, err := w.Get("absent-key"); err != nil {
 		r.Failf("benign-outcome-rejected", "after 200 redis.Nil / cancelled-context outcomes the breaker rejected a call: %v", err)
